@@ -1,0 +1,57 @@
+//go:build verif
+
+package kadm
+
+// Verification contracts (comments only), read by /verif/govc. Compiled only with -tags verif; no code.
+
+// ---- C35: per-partition group lag ----
+// Hoare assertions at the three stores lt[p] = GroupMemberLag{...} of CalculateGroupLagWithStartOffsets, stated over
+// the INPUT maps (commit, start offsets, end offsets of the topic), not over the function's temporaries:
+//   * Err is nil exactly when the partition has an end offset without error and the commit carries no error;
+//   * with an error, Lag is -1; otherwise Lag = max(0, End - Commit) when something was committed (At >= 0), else
+//     max(0, End - Start) when a start offset without error is known, else max(0, End);
+//   * the entry is stored under its own partition and records that end offset.
+// key / val are the key and value of the store; tcommit, tstart, tend are the per-topic input maps in scope.
+// Panic freedom of this function is not claimed: the write lt[p] in the third block needs the data invariant
+// 'every value of l is a non-nil map' carried through all eight loops.
+
+//@ func CalculateGroupLagWithStartOffsets(group DescribedGroup, commit OffsetResponses, startOffsets ListedOffsets, endOffsets ListedOffsets) (l GroupLag)
+//@   prop C35
+//@   site mapupdate GroupMemberLag#0 assert [err-iff] val.Err == nil <==>
+//@        (in(tend, key) && tend[key].Err == nil && ite(in(tcommit, key), tcommit[key].Err == nil, true))
+//@   site mapupdate GroupMemberLag#0 assert [lag-on-error] val.Err != nil ==> val.Lag == -1
+//@   site mapupdate GroupMemberLag#0 assert [lag-committed] (val.Err == nil && in(tcommit, key) && tcommit[key].Offset.At >= 0) ==>
+//@        val.Lag == max(0, tend[key].Offset - tcommit[key].Offset.At)
+//@   site mapupdate GroupMemberLag#0 assert [lag-from-start] (val.Err == nil && !(in(tcommit, key) && tcommit[key].Offset.At >= 0) && in(tstart, key) && tstart[key].Err == nil) ==>
+//@        val.Lag == max(0, tend[key].Offset - tstart[key].Offset)
+//@   site mapupdate GroupMemberLag#0 assert [lag-from-zero] (val.Err == nil && !(in(tcommit, key) && tcommit[key].Offset.At >= 0) && !(in(tstart, key) && tstart[key].Err == nil)) ==>
+//@        val.Lag == max(0, tend[key].Offset)
+//@   site mapupdate GroupMemberLag#0 assert [own-partition] val.Partition == key && (in(tend, key) ==> val.End == tend[key])
+//   second block: partitions that were committed to but are assigned to no member (pcommit is the ranged value)
+//@   site mapupdate GroupMemberLag#1 assert [err-iff] val.Err == nil <==> (in(tend, key) && tend[key].Err == nil && pcommit.Err == nil)
+//@   site mapupdate GroupMemberLag#1 assert [lag-on-error] val.Err != nil ==> val.Lag == -1
+//@   site mapupdate GroupMemberLag#1 assert [lag-committed] (val.Err == nil && pcommit.Offset.At >= 0) ==> val.Lag == max(0, tend[key].Offset - pcommit.Offset.At)
+//@   site mapupdate GroupMemberLag#1 assert [lag-from-start] (val.Err == nil && pcommit.Offset.At < 0 && in(tstart, key) && tstart[key].Err == nil) ==>
+//@        val.Lag == max(0, tend[key].Offset - tstart[key].Offset)
+//@   site mapupdate GroupMemberLag#1 assert [lag-from-zero] (val.Err == nil && pcommit.Offset.At < 0 && !(in(tstart, key) && tstart[key].Err == nil)) ==>
+//@        val.Lag == max(0, tend[key].Offset)
+//@   site mapupdate GroupMemberLag#1 assert [own-partition] val.Partition == key
+//   third block: partitions with a listed end offset that are neither assigned nor committed (pend is the ranged
+//   end offset, so it exists; nothing is committed)
+//@   site mapupdate GroupMemberLag#2 assert [err-iff] val.Err == nil <==> pend.Err == nil
+//@   site mapupdate GroupMemberLag#2 assert [lag-on-error] val.Err != nil ==> val.Lag == -1
+//@   site mapupdate GroupMemberLag#2 assert [lag-from-start] (val.Err == nil && in(tstart, key) && tstart[key].Err == nil) ==>
+//@        val.Lag == max(0, pend.Offset - tstart[key].Offset)
+//@   site mapupdate GroupMemberLag#2 assert [lag-from-zero] (val.Err == nil && !(in(tstart, key) && tstart[key].Err == nil)) ==>
+//@        val.Lag == max(0, pend.Offset)
+//@   site mapupdate GroupMemberLag#2 assert [own-partition] val.Partition == key && val.End == pend && val.Commit.At == -1
+
+//@ func (m GroupMemberMetadata) AsConsumer() (c *kmsg.ConsumerMemberMetadata, ok bool)
+//@   prop C35
+//@   nopanic
+//@   pure
+
+//@ func (m GroupMemberAssignment) AsConsumer() (c *kmsg.ConsumerMemberAssignment, ok bool)
+//@   prop C35
+//@   nopanic
+//@   pure
